@@ -141,7 +141,7 @@ def handmade_jobs(ctx, table):
     classes = axis_classes(ctx, table)
     fill = fillers(table)
     jobs = []
-    per_class = ctx.pick(1, 3)
+    per_class = ctx.pick(1, 4)
     if ctx.quick:
         # one representative per (o, n, f, outcome) + every size boundary of the emittable ones
         seen = set()
@@ -204,7 +204,7 @@ def generator_jobs(ctx):
     rest."""
     from neuroglancer_scripts import dyadic_pyramid
     rng = ctx.rng
-    want = ctx.pick(45, 700)
+    want = ctx.pick(45, 1100)
     fixed = [([[1, 1]] * 3, 2, [21, 13, 9]), ([[1, 1], [2, 1], [2, 1]], 2, [40, 9, 5]),
              ([[8, 10], [8, 10], [12, 10]], 2, [33, 20, 6]), ([[1, 1], [3, 1], [12, 1]], 2, [250, 9, 2]),
              ([[1, 1], [3, 1], [12, 1]], 1, [130, 5, 2]), ([[1, 1], [5, 1], [35, 4]], 2, [70, 8, 3]),
@@ -354,7 +354,7 @@ def run(ctx):
     # ---- C->S provenance traces -------------------------------------------
     prov_cases = []
     stride_jobs = [j for j in jobs if j["origin"] != "class2"]
-    take = ctx.pick(150, 2500)
+    take = ctx.pick(150, 4000)
     if len(stride_jobs) > take:
         stride_jobs = ctx.rng.sample(stride_jobs, take)
     for job in stride_jobs:
@@ -370,6 +370,7 @@ def run(ctx):
     allc = level_cases + prov_cases
     verdicts = ctx.judge("Trace_PyramidAssembly", [c for _, _, c in allc], workers=16, chunk=1500)
     pos_counts = {}
+    profile = {}
     observations = []
     clause_counts = {}
     for job, k, case in allc:
@@ -399,6 +400,10 @@ def run(ctx):
                 sig = sig_level(dict(job, variant={"method": "stride", "dtype": "uint32", "channels": 1,
                                                    "encoding": "raw", "storage": "recording"}),
                                 k, case, clause)
+            for fld in ("gen", "origin", "dup_keys", "raised", "half_chunk_1_new_ge_4",
+                        "pair_intended", "storage", "encoding", "method", "odd_pairs"):
+                d_ = profile.setdefault(clause, {}).setdefault(fld, {})
+                d_[str(sig.get(fld))] = d_.get(str(sig.get(fld)), 0) + 1
             ctx.violation(clause, sig,
                           {"mode": case["mode"], "scales": job["scales"], "level": k,
                            "variant": job.get("variant"), "gen": job["gen"], "axes": case["axes"],
@@ -406,6 +411,7 @@ def run(ctx):
                            "a": case.get("a", [])[:64], "ref": case.get("ref", [])[:64]})
     ctx.notes["verdict_pos_counts"] = pos_counts
     ctx.notes["failing_clause_counts"] = clause_counts
+    ctx.notes["violation_profile"] = profile
     ctx.notes["handmade_pairs_silently_wrong_as_modelled"] = {
         "count": pos_counts.get("3", 0), "examples": observations}
     ctx.notes["level_cases"] = len(level_cases)
